@@ -1,5 +1,5 @@
 use crate::{
-  byte_code::{ByteCodeEncoder, EncodedChunk, SymbolicByteCode},
+  byte_code::{ByteCodeEncoder, EncodedChunk, Label, SymbolicByteCode},
   cache::CacheIdEmitter,
   chunk_builder::ChunkBuilder,
   source::VmFileId,
@@ -329,7 +329,33 @@ fn label_count(instructions: &[SymbolicByteCode]) -> usize {
 fn apply_stack_effects(fun_builder: &mut FunBuilder, instructions: &mut [SymbolicByteCode]) {
   let mut slots: i32 = 1;
 
+  // The depth each label is entered with when control arrives by a jump. Code
+  // following an unconditional transfer is only reached through its label so
+  // the walk continues from the depth recorded for that label instead of the
+  // depth the abandoned path had
+  let mut label_slots: Vec<Option<i32>> = vec![None; label_count(instructions)];
+  let mut fallthrough = true;
+
+  fn record(label_slots: &mut Vec<Option<i32>>, label: &Label, slots: i32) {
+    let index = label.val() as usize;
+    if index >= label_slots.len() {
+      label_slots.resize(index + 1, None);
+    }
+    if label_slots[index].is_none() {
+      label_slots[index] = Some(slots);
+    }
+  }
+
   for instruction in instructions {
+    if let SymbolicByteCode::Label(label) = instruction {
+      if !fallthrough {
+        if let Some(Some(entered)) = label_slots.get(label.val() as usize) {
+          slots = *entered;
+        }
+      }
+      fallthrough = true;
+    }
+
     // only fill in a depth the compiler left as a placeholder
     if let SymbolicByteCode::PushHandler((0, label)) = instruction {
       // TODO handle to many slots
@@ -339,6 +365,29 @@ fn apply_stack_effects(fun_builder: &mut FunBuilder, instructions: &mut [Symboli
     slots += instruction.stack_effect();
     debug_assert!(slots >= 0);
     fun_builder.update_max_slots(slots);
+
+    match instruction {
+      SymbolicByteCode::Jump(label) => {
+        record(&mut label_slots, label, slots);
+        fallthrough = false;
+      },
+      SymbolicByteCode::JumpIfFalse(label) | SymbolicByteCode::CheckHandler(label) => {
+        record(&mut label_slots, label, slots)
+      },
+      // the short circuit operators keep their operand when they jump
+      SymbolicByteCode::And(label) | SymbolicByteCode::Or(label) => {
+        record(&mut label_slots, label, slots + 1)
+      },
+      // a handler is entered with the depth it was pushed with
+      SymbolicByteCode::PushHandler((depth, label)) => {
+        record(&mut label_slots, label, *depth as i32)
+      },
+      SymbolicByteCode::Loop(_)
+      | SymbolicByteCode::Return
+      | SymbolicByteCode::Raise
+      | SymbolicByteCode::ContinueUnwind => fallthrough = false,
+      _ => (),
+    }
   }
 }
 
